@@ -24,6 +24,10 @@ def configs(tier, seed):
   # big batches: MAX_DATAPOINTS_PER_MESSAGE in the tens of thousands on the relay, PICKLE_RECEIVER_MAX_LENGTH raised
   # accordingly on the next daemon (what carbon.conf.example says the setting is for)
   cfgs.append(dict(name='pickle/big', proto='pickle', shard=77, big=True))
+  # USE_RATIO_RESET: the relay resets a connection that sent too little of what was received in the last statistics
+  # period; what it was sending at that moment still has to arrive (over the old or the new connection)
+  for p in ('pickle', 'line'):
+    cfgs.append(dict(name='%s/ratio-reset' % p, proto=p, shard=55, ratio=True))
   return cfgs
 
 
@@ -56,6 +60,8 @@ def run_config(cfg, res):
   r = gen.rng(cfg['seed'], 'C15', cfg['name'])
   (dest, factory), = rl.factories().items()
   conn = fake.connectors[0]
+  import carbon.client as client
+  client.time = lambda: 1.0e9 + fake.seconds()      # lastResetTime / MIN_RESET_INTERVAL on the virtual clock
   transport = conn.h_connection_made()
   listener = P.MetricPickleReceiver if cfg['proto'] == 'pickle' else P.MetricLineReceiver
   ncases = 500 if cfg['tier'] == 'quick' else 8000
@@ -93,6 +99,25 @@ def run_config(cfg, res):
       if len(dppool) < 8:
         dppool.append(queued[-1])
     transport.clear()
+    old_data = b''
+    if cfg.get('ratio'):
+      # a statistics period in which much was received and little sent to this destination (real recordMetrics(); the
+      # self-metrics it generates are kept out of this connection)
+      from carbon import instrumentation
+      import carbon.client as client
+      settings['USE_RATIO_RESET'] = True
+      settings['MIN_RESET_STAT_FLOW'] = 1
+      settings['MIN_RESET_INTERVAL'] = r.choice([0, 0, 121])
+      instrumentation.stats['metricsReceived'] = r.choice([1000, 5])
+      hs = events.metricGenerated.handlers[:]
+      del events.metricGenerated.handlers[:]
+      try:
+        instrumentation.recordMetrics()
+      finally:
+        events.metricGenerated.handlers[:] = hs
+      if r.random() < 0.5:
+        fake.advance(122)
+      res.count('ratio_reset_cases')
     # the sending transport's buffer fills up in the middle of a message every now and then (slow receiver): it pauses
     # its producer from inside write(), the harness lets it drain and resumes
     transport.hw = r.choice([None, None, 40, 200, 1000, 4096])
@@ -100,7 +125,21 @@ def run_config(cfg, res):
     for name, dp in queued:
       rl.manager.sendDatapoint(name, dp)
     guard = 0
-    while (factory.queueSize or conn.protocol.paused) and guard < 20000:
+    while (factory.queueSize or conn.state != 'connected' or conn.protocol.paused) and guard < 20000:
+      if conn.state == 'connected' and transport.disconnecting:
+        # the client asked for the connection to be closed (quality reset): what it wrote is flushed, then the connection
+        # goes down and the reconnecting factory brings up a new one
+        old_data += transport.value()
+        conn.h_connection_lost()
+        res.count('connection_resets_by_the_client')
+      if conn.state == 'disconnected':
+        fake.advance(60)
+      if conn.state == 'connecting':
+        transport = conn.h_connection_made()
+        transport.hw = None
+      if conn.protocol is None:
+        guard += 1
+        continue
       if conn.protocol.paused:
         transport.flush()
         conn.protocol.resumeProducing()
@@ -111,7 +150,14 @@ def run_config(cfg, res):
     if factory.queueSize:
       res.violation('%s/queue-not-drained' % cfg['proto'], 'queue still holds %d datapoints after %d timer steps' % (factory.queueSize, guard))
       continue
-    data = transport.value()
+    if conn.state == 'connected' and transport.disconnecting:
+      old_data += transport.value()
+      conn.h_connection_lost()
+      fake.advance(60)
+      if conn.state == 'connecting':
+        transport = conn.h_connection_made()
+      res.count('connection_resets_by_the_client')
+    data = old_data + transport.value()
     res.count('bytes_transferred', len(data))
     # message structure: number of datapoints per message never exceeds MAX_DATAPOINTS_PER_MESSAGE
     if cfg['proto'] == 'pickle':
